@@ -60,7 +60,50 @@ def roundtrips(ctx, n):
             ctx.disagree("C01:roundtrip", desc, exp, np.asarray(res[1].array).tolist(), replay=None)
 
 
+def extreme_magnitude_stream(ctx, n):
+    """(a) integer points far from the origin and close to each other (coordinates 2^27 .. 2^30): the int64 contraction is exact, so
+    the join is an exact multiple of the exact span; (b) representatives with a huge homogeneous factor (2^340 .. 2^505; the products stay below 2^1024): the
+    power-of-two normalisation must bring the result back to ordinary magnitude, not to zero / inf"""
+    import geometer as g
+    rng = ctx.rng
+    for k in range(n):
+        if k % 2 == 0:
+            base = 2 ** rng.choice([27, 28, 30])
+            p = [base + rng.randint(1, 9), base + rng.randint(1, 9), 1]
+            q = [base + rng.randint(10, 19), base + rng.randint(10, 29), 1]
+            exp = [p[1] * q[2] - p[2] * q[1], p[2] * q[0] - p[0] * q[2], p[0] * q[1] - p[1] * q[0]]
+            desc = f"join of integer points {p} {q}"
+            r = call_impl(lambda: g.join(g.Point(np.array(p, dtype=np.int64)), g.Point(np.array(q, dtype=np.int64))))
+            ok = r[0] == "ok"
+            if ok:
+                a = np.asarray(r[1].array, dtype=float)
+                i = int(np.argmax(np.abs(a)))
+                # exact cross-multiplication in Python integers: a ∝ exp with relative error below 1e-13 in every entry
+                from fractions import Fraction as _F
+                ok = all(abs(_F(float(a[j])) * exp[i] - _F(float(a[i])) * exp[j]) <= _F(1, 10 ** 12) * abs(_F(float(a[i])) * exp[j]) for j in range(3))
+            ctx.count("extreme:big-int")
+        else:
+            e = rng.choice([340, 400, 500, 505])
+            p = np.array([float(rng.randint(-4, 4)), float(rng.randint(-4, 4)), 1.0])
+            q = np.array([float(rng.randint(-4, 4)), float(rng.randint(5, 9)), 1.0])
+            e2 = e
+            if k % 4 == 3:
+                # the largest entry of the un-normalised result lies in [2^1023, 2^1024): the top of the double range
+                p, q, e, e2 = np.array([1.0, 0.0, 1.0]), np.array([0.0, 1.0, 1.0]), 511, 512
+            exp = np.cross(p, q)
+            desc = f"join of {p.tolist()} and {q.tolist()}, given with the factors 2^{e}, 2^{e2}"
+            r = call_impl(lambda: g.join(g.Point(p * 2.0 ** e), g.Point(q * 2.0 ** e2)))
+            ok = r[0] == "ok" and np.all(np.isfinite(np.asarray(r[1].array))) and proj_close(ET.of(exp), r[1].array)
+            ctx.count("extreme:huge-scale")
+        ctx.case(desc)
+        if not ok:
+            ctx.disagree("C01:extreme:" + ("big-int" if k % 2 == 0 else "huge-scale"), desc, str(exp),
+                         r[1:3] if r[0] != "ok" else np.asarray(r[1].array).tolist(), replay=None)
+
+
 def correspondence(ctx):
+    jmlib.l3_shape_stream(ctx, ctx.budget(40, 400), "C01")
+    extreme_magnitude_stream(ctx, ctx.budget(40, 400))
     import glob, json, os
     for f in sorted(glob.glob(os.path.join(os.path.dirname(__file__), "..", "..", "corpus", "C01", "*.json"))):
         replay(ctx, json.load(open(f)))
